@@ -1,16 +1,30 @@
-//! C12 — min_spanning_tree (Kruskal) and min_spanning_tree_prim on every storage type that meets the
-//! bounds: Graph (u32/u8, directed and undirected storage), StableGraph with vacancies, GraphMap,
-//! MatrixGraph with removed ids, Csr; i64 and integer-valued f64 weights.
+//! C12 — min_spanning_tree (Kruskal) and min_spanning_tree_prim on every storage type and every graph
+//! adaptor that meets the bounds, `from_elements` / `filter_elements` on the element stream, and the
+//! `MinScored` / `MaxScored` orders (`src/scored.rs`).  API table: docs/C12_api.md.
 //!
-//! Lines per case:
-//!   graph …                                                 (one encoding's view, abstract ids)
-//!   kruskal <wt> fe=<g|s|d> er=<s:t:eid;…>  => <stream>|<fe nodes>|<fe edges>
-//!   prim <wt> fe=<g|s|d>                   => <stream>|<fe nodes>|<fe edges>
+//! Lines per graph case:
+//!   graph d= nb= nodes= ix= edges= out= in= [hasin=0] [sw=<eid>:<nan|inf|-inf>;…] [inc=<a>:<i>.<j>;…] enc=<name>
+//!        one encoding's view in abstract ids.  `sw` = the float weights that are not integers (the
+//!        `edges=` field carries 0 for them); `inc` = positions in the `out` row of `a` whose edge
+//!        reference does NOT have `a` as its source (open findings D23 / D6; empty everywhere else).
+//!   kruskal <wt> fe=<g|s|d|b|m> er=<s:t:eid;…>  => <stream>|<fe nodes>|<fe edges>
+//!   prim <wt> fe=<…>                            => <stream>|<fe nodes>|<fe edges>
+//!   iterlaw <what> => ok | VIOLATED <why>       `iterlaws::iter_laws` on the MST iterators / FilterElements
+//!   law <name> … => ok | VIOLATED <why>          laws checked against the implementation itself (see below)
 //! `er` = `edge_references()` order as (source, target, abstract edge id) in abstract node ids;
 //! stream = `N<weight>` / `E<source>:<target>:<weight>` tokens exactly as the iterator yields them
-//! (edge endpoints are positions in the node part of the stream); fe = the graph built by
-//! `from_elements` from that stream: node weights in index order, edges in index order as
-//! `<weight of source>:<weight of target>:<w>`.
+//! (edge endpoints are positions in the node part of the stream; weights are integers, `nan`, `inf`,
+//! `-inf`); fe = the graph built by `from_elements` from that stream: node weights in index order,
+//! edges in index order as `<weight of source>:<weight of target>:<w>`.  fe kinds: g/d = Graph
+//! undirected/directed (u32), s = StableGraph undirected, b = Graph<_, _, Undirected, u8> (panics —
+//! documented — beyond 255 nodes), m = GraphMap<usize, W, Undirected>.
+//!
+//! Laws (`law <name>`): mst-clone-mid (a clone taken after k `next()` calls yields the same rest as
+//! the original), mst-debug (`{:?}` / `{:#?}` of the iterators never panic, also mid-iteration),
+//! element-derives (`Element`: `x == x.clone()`, `Debug` text), filter-elements (`filter_elements`
+//! ≡ its documented meaning: rejected elements are dropped, edges at dropped nodes are dropped, the
+//! remaining positions are renumbered, mutations of the weights are kept), fe-default-method (the
+//! PROVIDED method `FromElements::from_elements` on a user type ≡ `Graph::from_elements`).
 //!
 //! Heap cases (no graph line): a direct differential test of the `BinaryHeap` mirror against
 //! `std::collections::BinaryHeap<MinScored<K, (usize, usize)>>` (the very type the two iterators use),
@@ -18,25 +32,33 @@
 //!   heap <i64|f64> ops=<p<key>:<id>|o|c;…> => one token per call: push `=<vec>`, pop `<key>:<id>=<vec>`
 //!                                             or `none=<vec>`, clear `c`
 //! `<vec>` = payload ids in the order of the heap's internal vector (`BinaryHeap::iter`), `.`-separated.
+//! and the comparison operators of `MinScored` / `MaxScored` themselves:
+//!   mscmp <min|max> <f64|f32|i64> <a> <b> => cmp=<l|e|g> pcmp=<l|e|g|none> eq=<0|1> ne= lt= le= gt= ge= max=<a|b> min=<a|b>
+//!   law scored-derives => ok | VIOLATED …      (Copy/Clone/Debug of MinScored / MaxScored)
 use crate::common::*;
 use crate::graphs::*;
+use crate::iterlaws::{iter_laws, law_verdict};
 use crate::rng::Rng;
 use petgraph::algo::{min_spanning_tree, min_spanning_tree_prim};
-use petgraph::data::{Element, FromElements};
-use petgraph::graph::Graph;
+use petgraph::data::{Build, Create, Element, ElementIterator, FromElements};
+use petgraph::graph::{Frozen, Graph, IndexType};
+use petgraph::graphmap::GraphMap;
 use petgraph::stable_graph::StableGraph;
 use petgraph::visit::{
-    Data, EdgeRef, IntoEdgeReferences, IntoEdges, IntoNodeReferences, NodeIndexable,
+    Data, EdgeFiltered, EdgeRef, FilterEdge, FilterNode, GraphBase, IntoEdgeReferences, IntoEdges,
+    IntoEdgesDirected, IntoNodeReferences, NodeCount, NodeFiltered, NodeIndexable, NodeRef, Reversed,
+    UndirectedAdaptor, VisitMap, Visitable,
 };
 use petgraph::{Directed, EdgeType, Undirected};
 use std::collections::BinaryHeap;
+use std::fmt::Debug;
 
 #[allow(dead_code)]
 #[path = "/repo/src/scored.rs"]
 mod scored_src;
-use scored_src::MinScored;
+use scored_src::{MaxScored, MinScored};
 
-trait HKey: Copy + PartialOrd {
+trait HKey: Copy + PartialOrd + Debug {
     fn show(self) -> String;
 }
 impl HKey for i64 {
@@ -56,6 +78,11 @@ impl HKey for f64 {
             // integer-valued by construction; -0.0 prints as 0 (it compares equal to 0.0)
             (self as i64).to_string()
         }
+    }
+}
+impl HKey for f32 {
+    fn show(self) -> String {
+        (self as f64).show()
     }
 }
 
@@ -130,75 +157,312 @@ fn heap_script<K: HKey>(ctx: &mut Ctx, rng: &mut Rng, kt: &str, base: &[K]) -> (
     (pushes, pool.len())
 }
 
-fn heap_case(ctx: &mut Ctx, rng: &mut Rng, case: u64) {
-    ctx.raw(&format!("case {} heap", case));
-    if rng.chance(50) {
-        let base = [-2i64, -1, 0, 0, 1, 1, 2, 3, 7, 100, i64::MIN, i64::MAX];
-        heap_script::<i64>(ctx, rng, "i64", &base);
-    } else {
-        let base = [f64::NAN, f64::NAN, f64::NEG_INFINITY, -2.0, -1.0, -0.0, 0.0, 1.0, 1.0, 2.0, 3.0, 1.0e9, f64::INFINITY];
-        heap_script::<f64>(ctx, rng, "f64", &base);
+fn ord_s(o: std::cmp::Ordering) -> &'static str {
+    match o {
+        std::cmp::Ordering::Less => "l",
+        std::cmp::Ordering::Equal => "e",
+        std::cmp::Ordering::Greater => "g",
     }
 }
 
-trait Wt: Copy + PartialOrd {
-    fn to_i(self) -> i64;
+/// every comparison operator of `MinScored` / `MaxScored` on one pair of scores (payloads differ on
+/// purpose: the order must ignore them)
+fn mscmp_lines<K: HKey>(ctx: &mut Ctx, rng: &mut Rng, kt: &str, base: &[K], pairs: usize) {
+    for _ in 0..pairs {
+        let (a, b) = (*rng.pick(base), *rng.pick(base));
+        let r = catch(|| {
+            let (x, y) = (MinScored(a, 7usize), MinScored(b, 3usize));
+            format!(
+                "cmp={} pcmp={} eq={} ne={} lt={} le={} gt={} ge={} max={} min={}",
+                ord_s(x.cmp(&y)),
+                x.partial_cmp(&y).map_or("none", ord_s),
+                (x == y) as u8, (x != y) as u8, (x < y) as u8, (x <= y) as u8, (x > y) as u8, (x >= y) as u8,
+                if std::cmp::max(x, y).1 == 7 { "a" } else { "b" },
+                if std::cmp::min(x, y).1 == 7 { "a" } else { "b" },
+            )
+        });
+        ctx.line(&format!("mscmp min {} {} {}", kt, a.show(), b.show()), &r.unwrap_or("panic".into()));
+        let r = catch(|| {
+            let (x, y) = (MaxScored(a, 7usize), MaxScored(b, 3usize));
+            format!(
+                "cmp={} pcmp={} eq={} ne={} lt={} le={} gt={} ge={} max={} min={}",
+                ord_s(x.cmp(&y)),
+                x.partial_cmp(&y).map_or("none", ord_s),
+                (x == y) as u8, (x != y) as u8, (x < y) as u8, (x <= y) as u8, (x > y) as u8, (x >= y) as u8,
+                if std::cmp::max(x, y).1 == 7 { "a" } else { "b" },
+                if std::cmp::min(x, y).1 == 7 { "a" } else { "b" },
+            )
+        });
+        ctx.line(&format!("mscmp max {} {} {}", kt, a.show(), b.show()), &r.unwrap_or("panic".into()));
+    }
+}
+
+fn scored_derives(ctx: &mut Ctx) {
+    let r = catch(|| {
+        let x = MinScored(f64::NAN, (1usize, 2usize));
+        let y = x; // Copy
+        #[allow(clippy::clone_on_copy)]
+        let z = x.clone();
+        if format!("{:?}", y) != "MinScored(NaN, (1, 2))" || format!("{:?}", z) != format!("{:?}", x) {
+            return Some(format!("Debug of MinScored(NaN, (1, 2)) is {:?}", y));
+        }
+        if !(x == z) {
+            return Some("MinScored(NaN, _) != its clone".to_string());
+        }
+        let m = MaxScored(-0.0f32, "p");
+        let m2 = m;
+        if format!("{:?}", m2) != "MaxScored(-0.0, \"p\")" || !(m == MaxScored(0.0f32, "q")) {
+            return Some(format!("MaxScored(-0.0, \"p\"): Debug {:?}, == MaxScored(0.0, _) is {}", m2, m == MaxScored(0.0f32, "q")));
+        }
+        let _ = format!("{:#?} {:10?}", x, m);
+        None
+    });
+    ctx.line("law scored-derives", &match r { Some(v) => law_verdict(v), None => "VIOLATED panic".to_string() });
+}
+
+fn heap_case(ctx: &mut Ctx, rng: &mut Rng, case: u64) {
+    ctx.raw(&format!("case {} heap profile={}", case, profile()));
+    let fbase = [f64::NAN, f64::NAN, f64::NEG_INFINITY, -2.0, -1.0, -0.0, 0.0, 1.0, 1.0, 2.0, 3.0, 1.0e9, f64::INFINITY];
+    let ibase = [-2i64, -1, 0, 0, 1, 1, 2, 3, 7, 100, i64::MIN, i64::MAX];
+    if rng.chance(50) {
+        heap_script::<i64>(ctx, rng, "i64", &ibase);
+    } else {
+        heap_script::<f64>(ctx, rng, "f64", &fbase);
+    }
+    match rng.below(4) {
+        0 => mscmp_lines::<i64>(ctx, rng, "i64", &ibase, 2),
+        1 => {
+            let b32 = [f32::NAN, -f32::NAN, f32::NEG_INFINITY, -1.0, -0.0, 0.0, 1.0, 2.0, f32::INFINITY];
+            mscmp_lines::<f32>(ctx, rng, "f32", &b32, 3)
+        }
+        _ => mscmp_lines::<f64>(ctx, rng, "f64", &fbase, 3),
+    }
+    if rng.chance(25) {
+        scored_derives(ctx);
+    }
+}
+
+fn profile() -> &'static str {
+    if cfg!(debug_assertions) { "debug" } else { "release" }
+}
+
+// ------------------------------------------------------------------------------------------------
+// weights.  The abstract graph carries `i64` KEYS; float encodings map three reserved keys to the
+// scores that are not integers.
+
+const NAN_K: i64 = i64::MAX;
+const PINF_K: i64 = i64::MAX - 1;
+const NINF_K: i64 = i64::MIN + 1;
+
+trait Wt: Copy + PartialOrd + PartialEq + Debug + 'static {
+    const FLOAT: bool;
+    const NAME: &'static str;
+    fn key(self) -> i64;
+    fn of_key(k: i64, alt: bool) -> Self;
 }
 impl Wt for i64 {
-    fn to_i(self) -> i64 {
+    const FLOAT: bool = false;
+    const NAME: &'static str = "i64";
+    fn key(self) -> i64 {
         self
     }
+    fn of_key(k: i64, _: bool) -> Self {
+        k
+    }
+}
+impl Wt for () {
+    const FLOAT: bool = false;
+    const NAME: &'static str = "unit";
+    fn key(self) -> i64 {
+        0
+    }
+    fn of_key(_: i64, _: bool) -> Self {}
 }
 impl Wt for f64 {
-    fn to_i(self) -> i64 {
-        if self.fract() != 0.0 || !self.is_finite() {
-            i64::MIN
-        } else {
-            self as i64
+    const FLOAT: bool = true;
+    const NAME: &'static str = "f64";
+    fn key(self) -> i64 {
+        if self.is_nan() { NAN_K } else if self == f64::INFINITY { PINF_K } else if self == f64::NEG_INFINITY { NINF_K } else if self.fract() != 0.0 { i64::MIN } else { self as i64 }
+    }
+    /// `alt`: the other representation of the same score (-0.0 for 0, a NaN with the sign bit set)
+    fn of_key(k: i64, alt: bool) -> Self {
+        match k {
+            NAN_K => if alt { -f64::NAN } else { f64::NAN },
+            PINF_K => f64::INFINITY,
+            NINF_K => f64::NEG_INFINITY,
+            0 => if alt { -0.0 } else { 0.0 },
+            _ => k as f64,
         }
     }
+}
+impl Wt for f32 {
+    const FLOAT: bool = true;
+    const NAME: &'static str = "f32";
+    fn key(self) -> i64 {
+        (self as f64).key()
+    }
+    fn of_key(k: i64, alt: bool) -> Self {
+        f64::of_key(k, alt) as f32
+    }
+}
+
+fn show_key(k: i64, float: bool) -> String {
+    if float && k == NAN_K { "nan".into() } else if float && k == PINF_K { "inf".into() } else if float && k == NINF_K { "-inf".into() } else { k.to_string() }
+}
+
+/// node weights: the abstract id itself, or nothing (adj::List) — then the id is the one of the node at
+/// that position of `node_references`
+trait NodeW: Clone + PartialEq + Debug {
+    fn abs_id(&self) -> Option<usize>;
+}
+impl NodeW for usize {
+    fn abs_id(&self) -> Option<usize> {
+        Some(*self)
+    }
+}
+impl NodeW for () {
+    fn abs_id(&self) -> Option<usize> {
+        None
+    }
+}
+
+/// the abstract graph an encoding (base type or adaptor) is supposed to describe
+#[derive(Clone, Debug)]
+struct VG {
+    directed: bool,
+    float: bool,
+    /// (abstract edge id, source, target, key)
+    edges: Vec<(usize, usize, usize, i64)>,
+}
+
+impl VG {
+    fn of(ag: &AG, float: bool) -> VG {
+        VG { directed: ag.directed, float, edges: ag.edges.iter().enumerate().map(|(k, &(a, b, w))| (k, a, b, w)).collect() }
+    }
+    /// abstract id of an edge reference by endpoints + key among the ids not used yet
+    fn eid(&self, a: usize, b: usize, w: i64, used: &mut Vec<usize>, dup_ok: bool) -> usize {
+        let hit = |x: usize, y: usize| (x == a && y == b) || (!self.directed && x == b && y == a);
+        for &(k, x, y, ww) in &self.edges {
+            if ww == w && !used.contains(&k) && hit(x, y) {
+                used.push(k);
+                return k;
+            }
+        }
+        if dup_ok {
+            for &(k, x, y, ww) in &self.edges {
+                if ww == w && hit(x, y) {
+                    return k;
+                }
+            }
+        }
+        usize::MAX
+    }
+    fn fmt_edges(&self) -> (String, String) {
+        let special = |w: i64| self.float && (w == NAN_K || w == PINF_K || w == NINF_K);
+        let e: Vec<String> = self.edges.iter().map(|&(k, a, b, w)| format!("{}:{}:{}:{}", k, a, b, if special(w) { 0 } else { w })).collect();
+        let s: Vec<String> = self.edges.iter().filter(|e| special(e.3)).map(|&(k, _, _, w)| format!("{}:{}", k, show_key(w, true))).collect();
+        (if e.is_empty() { "-".into() } else { e.join(";") }, s.join(";"))
+    }
+}
+
+/// `graph` line for anything that offers node references, `edges(a)` and `to_index` — what the two
+/// algorithms use.  Returns the line and the abstract ids of the node references in order.
+fn view_any<G, W>(vg: &VG, g: G, abs: &dyn Fn(G::NodeId) -> usize, enc: &str) -> (String, Vec<usize>)
+where
+    W: Wt,
+    G: IntoNodeReferences + IntoEdges + NodeIndexable + Data<EdgeWeight = W>,
+{
+    let nodes: Vec<G::NodeId> = g.node_references().map(|r| r.id()).collect();
+    let mut out = Vec::new();
+    let mut inc = Vec::new();
+    for &n in &nodes {
+        let mut used = Vec::new();
+        let mut row = Vec::new();
+        let mut flagged = Vec::new();
+        for (i, e) in g.edges(n).enumerate() {
+            let (s, t) = (e.source(), e.target());
+            let other = if s == n { t } else { s };
+            if s != n {
+                flagged.push(i.to_string());
+            }
+            // looked up as an edge from `n` to the other endpoint (flagged entries report it the other way
+            // round); a second listing of a self-loop gets the id of the first (D23; anywhere else the
+            // driver's view_ids check rejects the repeated id)
+            row.push(format!("{}/{}", abs(other), vg.eid(abs(n), abs(other), e.weight().key(), &mut used, other == n)));
+        }
+        out.push(format!("{}:{}", abs(n), if row.is_empty() { "-".into() } else { row.join(",") }));
+        if !flagged.is_empty() {
+            inc.push(format!("{}:{}", abs(n), flagged.join(".")));
+        }
+    }
+    let (edges, sw) = vg.fmt_edges();
+    let ids: Vec<usize> = nodes.iter().map(|&n| abs(n)).collect();
+    let mut line = format!(
+        "graph d={} nb={} nodes={} ix={} edges={} out={} in=- hasin=0",
+        vg.directed as u8,
+        g.node_bound(),
+        list(ids.iter()),
+        list(nodes.iter().map(|&n| format!("{}:{}", abs(n), g.to_index(n)))),
+        edges,
+        if out.is_empty() { "-".into() } else { out.join(";") },
+    );
+    if !sw.is_empty() {
+        line.push_str(&format!(" sw={}", sw));
+    }
+    if !inc.is_empty() {
+        line.push_str(&format!(" inc={}", inc.join(";")));
+    }
+    line.push_str(&format!(" enc={}", enc));
+    (line, ids)
 }
 
 fn show_stream<W: Wt>(els: &[Element<usize, W>]) -> String {
     list(els.iter().map(|e| match e {
         Element::Node { weight } => format!("N{}", weight),
-        Element::Edge { source, target, weight } => format!("E{}:{}:{}", source, target, weight.to_i()),
+        Element::Edge { source, target, weight } => format!("E{}:{}:{}", source, target, show_key(weight.key(), W::FLOAT)),
     }))
+}
+
+fn fe_dump(nodes: Vec<usize>, edges: Vec<String>) -> String {
+    format!("{}|{}", list(nodes), if edges.is_empty() { "-".to_string() } else { edges.join(";") })
 }
 
 fn show_fe<W: Wt>(els: &[Element<usize, W>], kind: char) -> String {
     let els: Vec<Element<usize, W>> = els.to_vec();
+    let sk = |w: &W| show_key(w.key(), W::FLOAT);
     let r = catch(move || match kind {
         's' => {
             let g = StableGraph::<usize, W, Undirected>::from_elements(els);
-            let nodes = list(g.node_indices().map(|n| g[n]));
-            let edges: Vec<String> = g.edge_indices().map(|e| { let (a, b) = g.edge_endpoints(e).unwrap(); format!("{}:{}:{}", g[a], g[b], g[e].to_i()) }).collect();
-            format!("{}|{}", nodes, if edges.is_empty() { "-".to_string() } else { edges.join(";") })
+            fe_dump(g.node_indices().map(|n| g[n]).collect(), g.edge_indices().map(|e| { let (a, b) = g.edge_endpoints(e).unwrap(); format!("{}:{}:{}", g[a], g[b], sk(&g[e])) }).collect())
         }
         'd' => {
             let g = Graph::<usize, W, Directed>::from_elements(els);
-            let nodes = list(g.node_indices().map(|n| g[n]));
-            let edges: Vec<String> = g.edge_indices().map(|e| { let (a, b) = g.edge_endpoints(e).unwrap(); format!("{}:{}:{}", g[a], g[b], g[e].to_i()) }).collect();
-            format!("{}|{}", nodes, if edges.is_empty() { "-".to_string() } else { edges.join(";") })
+            fe_dump(g.node_indices().map(|n| g[n]).collect(), g.edge_indices().map(|e| { let (a, b) = g.edge_endpoints(e).unwrap(); format!("{}:{}:{}", g[a], g[b], sk(&g[e])) }).collect())
+        }
+        'b' => {
+            let g = Graph::<usize, W, Undirected, u8>::from_elements(els);
+            fe_dump(g.node_indices().map(|n| g[n]).collect(), g.edge_indices().map(|e| { let (a, b) = g.edge_endpoints(e).unwrap(); format!("{}:{}:{}", g[a], g[b], sk(&g[e])) }).collect())
+        }
+        'm' => {
+            let g = GraphMap::<usize, W, Undirected>::from_elements(els);
+            fe_dump(g.nodes().collect(), g.all_edges().map(|(a, b, w)| format!("{}:{}:{}", a, b, sk(w))).collect())
         }
         _ => {
             let g = Graph::<usize, W, Undirected>::from_elements(els);
-            let nodes = list(g.node_indices().map(|n| g[n]));
-            let edges: Vec<String> = g.edge_indices().map(|e| { let (a, b) = g.edge_endpoints(e).unwrap(); format!("{}:{}:{}", g[a], g[b], g[e].to_i()) }).collect();
-            format!("{}|{}", nodes, if edges.is_empty() { "-".to_string() } else { edges.join(";") })
+            fe_dump(g.node_indices().map(|n| g[n]).collect(), g.edge_indices().map(|e| { let (a, b) = g.edge_endpoints(e).unwrap(); format!("{}:{}:{}", g[a], g[b], sk(&g[e])) }).collect())
         }
     });
     r.unwrap_or("panic|panic".into())
 }
 
-/// node elements carry the abstract id: the node weight itself, or (adj::List has unit node weights)
-/// the id of the node at that position of the stream
-fn relabel<N, W: Wt>(els: Vec<Element<N, W>>, nodew: &dyn Fn(usize, &N) -> usize) -> Vec<Element<usize, W>> {
+/// node elements carry the abstract id: the node weight itself, or the id of the node at that
+/// position of `node_references`
+fn relabel<N: NodeW, W: Wt>(els: Vec<Element<N, W>>, ids: &[usize]) -> Vec<Element<usize, W>> {
     let mut pos = 0usize;
     els.into_iter()
         .map(|e| match e {
             Element::Node { weight } => {
-                let w = nodew(pos, &weight);
+                let w = weight.abs_id().unwrap_or_else(|| ids.get(pos).copied().unwrap_or(usize::MAX));
                 pos += 1;
                 Element::Node { weight: w }
             }
@@ -207,150 +471,653 @@ fn relabel<N, W: Wt>(els: Vec<Element<N, W>>, nodew: &dyn Fn(usize, &N) -> usize
         .collect()
 }
 
-/// run both algorithms on one encoding
-fn run_mst<G, W>(ctx: &mut Ctx, rng: &mut Rng, g: G, wt: &str, abs: &dyn Fn(G::NodeId) -> usize, er_eid: &dyn Fn(G::EdgeRef) -> usize, nodew: &dyn Fn(usize, &G::NodeWeight) -> usize)
+// ------------------------------------------------------------------------------------------------
+// a user type that relies on the PROVIDED method of `FromElements`
+
+struct Wrap<W>(Graph<usize, W, Undirected>);
+impl<W> Default for Wrap<W> {
+    fn default() -> Self {
+        Wrap(Graph::default())
+    }
+}
+impl<W> GraphBase for Wrap<W> {
+    type NodeId = petgraph::graph::NodeIndex;
+    type EdgeId = petgraph::graph::EdgeIndex;
+}
+impl<W> Data for Wrap<W> {
+    type NodeWeight = usize;
+    type EdgeWeight = W;
+}
+impl<W> NodeCount for Wrap<W> {
+    fn node_count(&self) -> usize {
+        self.0.node_count()
+    }
+}
+impl<W> Build for Wrap<W> {
+    fn add_node(&mut self, weight: usize) -> Self::NodeId {
+        self.0.add_node(weight)
+    }
+    fn add_edge(&mut self, a: Self::NodeId, b: Self::NodeId, weight: W) -> Option<Self::EdgeId> {
+        Some(self.0.add_edge(a, b, weight))
+    }
+    fn update_edge(&mut self, a: Self::NodeId, b: Self::NodeId, weight: W) -> Self::EdgeId {
+        self.0.update_edge(a, b, weight)
+    }
+}
+impl<W> Create for Wrap<W> {
+    fn with_capacity(nodes: usize, edges: usize) -> Self {
+        Wrap(Graph::with_capacity(nodes, edges))
+    }
+}
+impl<W> FromElements for Wrap<W> {}
+
+/// user-defined filters (petgraph implements the filter traits for closures and for visit maps; a
+/// user type is the third way in)
+#[derive(Clone, Debug)]
+struct KeepNodes<N>(Vec<N>);
+impl<N: PartialEq> FilterNode<N> for KeepNodes<N> {
+    fn include_node(&self, n: N) -> bool {
+        self.0.contains(&n)
+    }
+}
+#[derive(Clone, Debug)]
+struct KeepEdges<N>(Vec<(N, N, i64)>);
+impl<N: PartialEq + Copy, E: EdgeRef<NodeId = N>> FilterEdge<E> for KeepEdges<N>
+where
+    E::Weight: Wt,
+{
+    fn include_edge(&self, e: E) -> bool {
+        let (s, t, k) = (e.source(), e.target(), e.weight().key());
+        self.0.iter().any(|&(a, b, w)| w == k && ((a == s && b == t) || (a == t && b == s)))
+    }
+}
+
+// ------------------------------------------------------------------------------------------------
+// laws on the element stream
+
+fn element_debug<W: Wt>(e: &Element<usize, W>) -> String {
+    match e {
+        Element::Node { weight } => format!("Node {{ weight: {:?} }}", weight),
+        Element::Edge { source, target, weight } => format!("Edge {{ source: {:?}, target: {:?}, weight: {:?} }}", source, target, weight),
+    }
+}
+
+fn element_law<W: Wt>(ctx: &mut Ctx, els: &[Element<usize, W>]) {
+    let r = catch(|| {
+        for e in els {
+            let c = e.clone();
+            // a NaN weight is not equal to itself: `PartialEq` of `Element` is the derived, field-wise one
+            let self_eq = match e { Element::Edge { weight, .. } => weight == weight, _ => true };
+            if (*e == c) != self_eq || (*e != c) == self_eq {
+                return Some(format!("{:?} == its clone gives {}", e, *e == c));
+            }
+            if format!("{:?}", c) != element_debug(e) {
+                return Some(format!("Debug of an element is {:?}, expected {}", c, element_debug(e)));
+            }
+        }
+        None
+    });
+    ctx.line("law element-derives", &match r { Some(v) => law_verdict(v), None => "VIOLATED panic".to_string() });
+}
+
+/// `filter_elements` against its documented meaning, on an MST stream (nodes first)
+fn filter_law<W: Wt>(ctx: &mut Ctx, rng: &mut Rng, els: &[Element<usize, W>]) {
+    let n_nodes = els.iter().filter(|e| matches!(e, Element::Node { .. })).count();
+    let mode = rng.below(4);
+    let keep_node: Vec<bool> = (0..n_nodes).map(|_| match mode { 0 => true, 1 => false, _ => rng.chance(70) }).collect();
+    let salt = rng.below(3) as i64;
+    let edge_mod = if rng.chance(30) { 1 } else { 3 }; // 1: every edge is kept
+    let keep_edge = move |k: i64| edge_mod == 1 || k.rem_euclid(3) != salt;
+    let bump = if rng.chance(50) { 1000usize } else { 0 };
+    // reference
+    let mut want: Vec<Element<usize, W>> = Vec::new();
+    let removed_before = |i: usize| keep_node[..i].iter().filter(|k| !**k).count();
+    let mut pos = 0usize;
+    for e in els {
+        match e {
+            Element::Node { weight } => {
+                if keep_node[pos] {
+                    want.push(Element::Node { weight: *weight + bump });
+                }
+                pos += 1;
+            }
+            Element::Edge { source, target, weight } => {
+                if keep_edge(weight.key()) && keep_node[*source] && keep_node[*target] {
+                    want.push(Element::Edge { source: source - removed_before(*source), target: target - removed_before(*target), weight: *weight });
+                }
+            }
+        }
+    }
+    let kn = keep_node.clone();
+    let mk = move || {
+        let kn = kn.clone();
+        let mut seen = 0usize;
+        els.to_vec().into_iter().filter_elements(move |e: Element<&mut usize, &mut W>| match e {
+            Element::Node { weight } => {
+                let k = kn[seen];
+                seen += 1;
+                *weight += bump;
+                k
+            }
+            Element::Edge { weight, .. } => keep_edge(weight.key()),
+        })
+    };
+    let r = catch(|| {
+        let got: Vec<Element<usize, W>> = mk().collect();
+        let same = got.len() == want.len() && got.iter().zip(want.iter()).all(|(a, b)| element_debug(a) == element_debug(b));
+        if !same {
+            return Some(format!("filter_elements yields {}, its documented meaning gives {}", show_stream(&got), show_stream(&want)));
+        }
+        let it = mk();
+        let _ = format!("{:?}", it.size_hint());
+        None
+    });
+    let bits: String = keep_node.iter().map(|&k| if k { '1' } else { '0' }).collect();
+    ctx.line(&format!("law filter-elements keep={} edges-mod={} bump={}", if bits.is_empty() { "-".to_string() } else { bits }, edge_mod, bump), &match r { Some(v) => law_verdict(v), None => "VIOLATED panic".to_string() });
+    // the iterator laws need `PartialEq` items: NaN weights would fail `==` on equal streams
+    if !els.iter().any(|e| matches!(e, Element::Edge { weight, .. } if weight != weight)) {
+        let r = catch(|| iter_laws(mk()));
+        ctx.line("iterlaw filter-elements", &match r { Some(v) => law_verdict(v), None => "VIOLATED panic".to_string() });
+    }
+}
+
+fn default_method_law<W: Wt>(ctx: &mut Ctx, els: &[Element<usize, W>]) {
+    let r = catch(|| {
+        let w = Wrap::<W>::from_elements(els.to_vec()).0;
+        let g = Graph::<usize, W, Undirected>::from_elements(els.to_vec());
+        let dump = |g: &Graph<usize, W, Undirected>| format!("{:?} {:?}", g.raw_nodes().iter().map(|n| n.weight).collect::<Vec<_>>(), g.raw_edges().iter().map(|e| (e.source().index(), e.target().index(), format!("{:?}", e.weight))).collect::<Vec<_>>());
+        if dump(&w) != dump(&g) {
+            return Some(format!("the provided from_elements builds {}, Graph::from_elements builds {}", dump(&w), dump(&g)));
+        }
+        None
+    });
+    ctx.line("law fe-default-method", &match r { Some(v) => law_verdict(v), None => "VIOLATED panic".to_string() });
+}
+
+// ------------------------------------------------------------------------------------------------
+// run both algorithms on one encoding
+
+fn has_nan<N, W: Wt>(els: &[Element<N, W>]) -> bool {
+    els.iter().any(|e| matches!(e, Element::Edge { weight, .. } if weight != weight))
+}
+
+/// `it` after `k` calls of `next`: its clone and itself yield the same rest, which is the tail of the
+/// collected stream
+fn clone_mid<I>(mk: &dyn Fn() -> I, k: usize) -> Option<String>
+where
+    I: Iterator + Clone,
+    I::Item: Debug,
+{
+    let full: Vec<String> = mk().map(|e| format!("{:?}", e)).collect();
+    let mut it = mk();
+    for _ in 0..k {
+        it.next();
+    }
+    let c = it.clone();
+    let r1: Vec<String> = it.map(|e| format!("{:?}", e)).collect();
+    let r2: Vec<String> = c.map(|e| format!("{:?}", e)).collect();
+    let tail = &full[k.min(full.len())..];
+    if r1 != tail {
+        return Some(format!("after {} next() calls the iterator yields {:?}, the collected stream continues {:?}", k, r1, tail));
+    }
+    if r2 != r1 {
+        return Some(format!("a clone taken after {} next() calls yields {:?}, the original {:?}", k, r2, r1));
+    }
+    None
+}
+
+fn run_all<G, W>(ctx: &mut Ctx, rng: &mut Rng, vg: &VG, g: G, enc: &str, abs: &dyn Fn(G::NodeId) -> usize, fe_big: bool)
 where
     W: Wt,
     G: IntoNodeReferences + IntoEdgeReferences + IntoEdges + NodeIndexable + Data<EdgeWeight = W>,
-    G::NodeWeight: Clone,
+    G::NodeWeight: NodeW,
+    G::NodeReferences: Clone,
 {
-    let er: Vec<String> = g.edge_references().map(|e| format!("{}:{}:{}", abs(e.source()), abs(e.target()), er_eid(e))).collect();
+    let (line, ids) = view_any(vg, g, abs, enc);
+    ctx.line(&line, "ok");
+    let mut used = Vec::new();
+    let er: Vec<String> = g.edge_references().map(|e| format!("{}:{}:{}", abs(e.source()), abs(e.target()), vg.eid(abs(e.source()), abs(e.target()), e.weight().key(), &mut used, true))).collect();
     let er = if er.is_empty() { "-".to_string() } else { er.join(";") };
-    let kinds = ['g', 's', 'd'];
-    let fk = kinds[rng.below(3)];
-    let r = catch(|| relabel(min_spanning_tree(g).collect::<Vec<Element<G::NodeWeight, W>>>(), nodew));
+    let kinds: &[char] = if fe_big { &['b', 'b', 'g'] } else { &['g', 's', 'd', 'b', 'm'] };
+    let fk = *rng.pick(kinds);
+    let r = catch(|| relabel(min_spanning_tree(g).collect::<Vec<Element<G::NodeWeight, W>>>(), &ids));
+    let kstream = r.clone();
     let ans = match r {
         Some(els) => format!("{}|{}", show_stream(&els), show_fe(&els, fk)),
         None => "panic".to_string(),
     };
-    ctx.line(&format!("kruskal {} fe={} er={}", wt, fk, er), &ans);
-    let fk = kinds[rng.below(3)];
-    let r = catch(|| relabel(min_spanning_tree_prim(g).collect::<Vec<Element<G::NodeWeight, W>>>(), nodew));
+    ctx.line(&format!("kruskal {} fe={} er={}", W::NAME, fk, er), &ans);
+    let fk = *rng.pick(kinds);
+    let r = catch(|| relabel(min_spanning_tree_prim(g).collect::<Vec<Element<G::NodeWeight, W>>>(), &ids));
+    let pnan = r.as_ref().map_or(false, |s| has_nan(s));
     let ans = match r {
         Some(els) => format!("{}|{}", show_stream(&els), show_fe(&els, fk)),
         None => "panic".to_string(),
     };
-    ctx.line(&format!("prim {} fe={}", wt, fk), &ans);
-}
-
-fn case_ty<Ty: EdgeType>(ctx: &mut Ctx, rng: &mut Rng, ag: &AG) -> &'static str {
-    let n = ag.n;
-    let node_order = random_perm(rng, n);
-    let edge_order = random_perm(rng, ag.edges.len());
-    let simple = ag.is_simple();
-    let pm = pair_map(ag);
-    let mut choices = vec![0, 1, 2, 2, 6, 7, 9];
-    if simple {
-        choices.extend([3, 4, 5]);
-        if ag.directed {
-            choices.push(8);
+    ctx.line(&format!("prim {} fe={}", W::NAME, fk), &ans);
+    if fe_big {
+        return;
+    }
+    // laws (a third of the cases each)
+    let nan = pnan || kstream.as_ref().map_or(false, |s| has_nan(s));
+    if rng.chance(35) && !nan {
+        let r = catch(|| iter_laws(min_spanning_tree(g)));
+        ctx.line("iterlaw kruskal", &match r { Some(v) => law_verdict(v), None => "VIOLATED panic".to_string() });
+        let r = catch(|| iter_laws(min_spanning_tree_prim(g)));
+        ctx.line("iterlaw prim", &match r { Some(v) => law_verdict(v), None => "VIOLATED panic".to_string() });
+    }
+    if rng.chance(35) {
+        let len = kstream.as_ref().map_or(0, |s| s.len());
+        let k = *rng.pick(&[0, 1, ids.len().saturating_sub(1), ids.len(), ids.len() + 1, len, len + 1]);
+        let r = catch(|| clone_mid(&|| min_spanning_tree(g), k).or_else(|| clone_mid(&|| min_spanning_tree_prim(g), k)));
+        ctx.line(&format!("law mst-clone-mid k={}", k), &match r { Some(v) => law_verdict(v), None => "VIOLATED panic".to_string() });
+    }
+    if let Some(els) = kstream {
+        if rng.chance(25) {
+            element_law(ctx, &els);
+        }
+        if rng.chance(35) {
+            filter_law(ctx, rng, &els);
+        }
+        if rng.chance(20) {
+            default_method_law(ctx, &els);
         }
     }
-    match *rng.pick(&choices) {
+}
+
+/// `Debug` of the two iterators, fresh and mid-iteration (needs `Debug` of the graph and its node
+/// references, which closures as filters do not have)
+fn debug_law<G>(ctx: &mut Ctx, rng: &mut Rng, g: G)
+where
+    G: IntoNodeReferences + IntoEdgeReferences + IntoEdges + NodeIndexable + Debug,
+    G::NodeWeight: Clone,
+    G::EdgeWeight: Clone + PartialOrd + Debug,
+    G::NodeReferences: Debug,
+    G::NodeRef: Debug,
+    G::NodeId: Debug,
+{
+    if !rng.chance(20) {
+        return;
+    }
+    let k = rng.below(6);
+    let r = catch(|| {
+        let mut a = min_spanning_tree(g);
+        let mut b = min_spanning_tree_prim(g);
+        let s0 = format!("{:?}{:?}", a, b).len();
+        for _ in 0..k {
+            a.next();
+            b.next();
+        }
+        let s1 = format!("{:#?}{:?}", a, b).len();
+        while a.next().is_some() {}
+        while b.next().is_some() {}
+        let s2 = format!("{:?}{:#?}", a, b).len();
+        if s0 == 0 || s1 == 0 || s2 == 0 { Some("empty Debug text".to_string()) } else { None }
+    });
+    ctx.line(&format!("law mst-debug k={}", k), &match r { Some(v) => law_verdict(v), None => "VIOLATED panic".to_string() });
+}
+
+fn mix(a: usize, b: usize, k: i64, salt: u64) -> u64 {
+    let (x, y) = if a <= b { (a, b) } else { (b, a) };
+    let mut z = (x as u64).wrapping_mul(0x9E3779B97F4A7C15) ^ (y as u64).wrapping_mul(0xBF58476D1CE4E5B9) ^ (k as u64).wrapping_mul(0x94D049BB133111EB) ^ salt;
+    z ^= z >> 29;
+    z = z.wrapping_mul(0xD6E8FEB86659FD93);
+    z ^ (z >> 32)
+}
+
+macro_rules! yes_dbg { ($c:expr, $r:expr, $g:expr) => { debug_law($c, $r, $g) }; }
+macro_rules! no_dbg { ($c:expr, $r:expr, $g:expr) => { () }; }
+
+/// the adaptors that need `IntoEdges` of the base only: NodeFiltered (closure / visit map / user
+/// type), EdgeFiltered (closure / user type); generated twice: with the `Debug` law and (MatrixGraph
+/// has no `Debug`) without
+macro_rules! filtered_fn { ($name:ident, $dbg:ident, [$($gb:tt)*]) => {
+fn $name<G, W>(ctx: &mut Ctx, rng: &mut Rng, vg: &VG, n: usize, g: G, base: &str, abs: &dyn Fn(G::NodeId) -> usize)
+where
+    W: Wt,
+    G: IntoNodeReferences + IntoEdgeReferences + IntoEdges + NodeIndexable + Data<EdgeWeight = W> + Visitable $($gb)*,
+    G::NodeWeight: NodeW,
+    G::NodeReferences: Clone $($gb)*,
+    G::NodeRef: Clone $($gb)*,
+    G::NodeId: Clone $($gb)*,
+    G::Map: FilterNode<G::NodeId> + Clone $($gb)*,
+{
+    let which = rng.below(5);
+    if which < 3 {
+        let p = *rng.pick(&[0u32, 50, 75, 90, 100]);
+        let keep: Vec<bool> = (0..n).map(|_| rng.chance(p)).collect();
+        let sub = VG { directed: vg.directed, float: vg.float, edges: vg.edges.iter().filter(|e| keep[e.1] && keep[e.2]).cloned().collect() };
+        match which {
+            0 => {
+                let f = NodeFiltered::from_fn(g, |x: G::NodeId| keep[abs(x)]);
+                run_all(ctx, rng, &sub, &f, &format!("nf-fn-{}", base), abs, false);
+            }
+            1 => {
+                let mut vm = g.visit_map();
+                for r in g.node_references() {
+                    if keep[abs(r.id())] {
+                        vm.visit(r.id());
+                    }
+                }
+                let f = NodeFiltered(g, vm);
+                run_all(ctx, rng, &sub, &f, &format!("nf-map-{}", base), abs, false);
+                $dbg!(ctx, rng, &f);
+            }
+            _ => {
+                let f = NodeFiltered(g, KeepNodes(g.node_references().map(|r| r.id()).filter(|&x| keep[abs(x)]).collect()));
+                run_all(ctx, rng, &sub, &f, &format!("nf-user-{}", base), abs, false);
+                $dbg!(ctx, rng, &f);
+            }
+        }
+    } else {
+        let p = *rng.pick(&[0u64, 40, 70, 90, 100]);
+        let salt = rng.next();
+        let keep = |a: usize, b: usize, k: i64| mix(a, b, k, salt) % 100 < p;
+        let sub = VG { directed: vg.directed, float: vg.float, edges: vg.edges.iter().filter(|e| keep(e.1, e.2, e.3)).cloned().collect() };
+        if which == 3 {
+            let f = EdgeFiltered::from_fn(g, |e: G::EdgeRef| keep(abs(e.source()), abs(e.target()), e.weight().key()));
+            run_all(ctx, rng, &sub, &f, &format!("ef-fn-{}", base), abs, false);
+        } else {
+            let f = EdgeFiltered(g, KeepEdges(g.edge_references().filter(|e| keep(abs(e.source()), abs(e.target()), e.weight().key())).map(|e| (e.source(), e.target(), e.weight().key())).collect()));
+            run_all(ctx, rng, &sub, &f, &format!("ef-user-{}", base), abs, false);
+            $dbg!(ctx, rng, &f);
+        }
+    }
+}
+} }
+filtered_fn!(filtered, yes_dbg, [+ Debug]);
+filtered_fn!(filtered_nd, no_dbg, []);
+
+/// the adaptors that need `IntoEdgesDirected` of the base: Reversed, UndirectedAdaptor
+macro_rules! directed_fn { ($name:ident, $dbg:ident, [$($gb:tt)*]) => {
+fn $name<G, W>(ctx: &mut Ctx, rng: &mut Rng, vg: &VG, g: G, base: &str, abs: &dyn Fn(G::NodeId) -> usize)
+where
+    W: Wt,
+    G: IntoNodeReferences + IntoEdgeReferences + IntoEdgesDirected + NodeIndexable + Data<EdgeWeight = W> $($gb)*,
+    G::NodeWeight: NodeW,
+    G::NodeReferences: Clone $($gb)*,
+    G::NodeRef: Clone $($gb)*,
+    G::NodeId: Clone $($gb)*,
+{
+    if !vg.directed || rng.chance(50) {
+        let rev = VG { directed: vg.directed, float: vg.float, edges: vg.edges.iter().map(|&(k, a, b, w)| (k, b, a, w)).collect() };
+        let r = Reversed(g);
+        run_all(ctx, rng, &rev, r, &format!("rev-{}", base), abs, false);
+        $dbg!(ctx, rng, r);
+    } else {
+        let und = VG { directed: false, float: vg.float, edges: vg.edges.clone() };
+        let u = UndirectedAdaptor(g);
+        run_all(ctx, rng, &und, u, &format!("und-{}", base), abs, false);
+        $dbg!(ctx, rng, u);
+    }
+}
+} }
+directed_fn!(directed_adaptors, yes_dbg, [+ Debug]);
+directed_fn!(directed_adaptors_nd, no_dbg, []);
+
+/// replace ~30 % of the keys of a float graph by the scores that are not numbers
+fn specials(rng: &mut Rng, ag: &mut AG) {
+    let pool = [NAN_K, NAN_K, PINF_K, NINF_K, 0, 0];
+    let p = *rng.pick(&[10u32, 30, 60, 100]);
+    for e in ag.edges.iter_mut() {
+        if rng.chance(p) {
+            e.2 = *rng.pick(&pool);
+        }
+    }
+}
+
+fn graph_of<Ty: EdgeType, Ix: IndexType, W: Wt>(rng: &mut Rng, e: &EncGraph<Ty, u32>) -> Graph<usize, W, Ty, Ix> {
+    let mut g = Graph::<usize, W, Ty, Ix>::with_capacity(0, 0);
+    for n in e.g.node_indices() {
+        g.add_node(e.g[n]);
+    }
+    for ed in e.g.edge_references() {
+        g.add_edge(petgraph::graph::NodeIndex::new(ed.source().index()), petgraph::graph::NodeIndex::new(ed.target().index()), W::of_key(*ed.weight(), rng.chance(50)));
+    }
+    g
+}
+
+fn case_ty<Ty: EdgeType + Clone + Debug>(ctx: &mut Ctx, rng: &mut Rng, ag: &mut AG, node_order: Vec<usize>, corner: &str) {
+    let n = ag.n;
+    let edge_order = random_perm(rng, ag.edges.len());
+    let simple = ag.is_simple();
+    // 0-10: the storage types themselves (10 = float with NaN / infinities); 11-16 instantiations;
+    // 20-25 filtered adaptors over each base; 30-33 Reversed / UndirectedAdaptor; 40-45 &Frozen
+    let mut choices = vec![0, 1, 2, 2, 6, 7, 9, 10, 10, 11, 12, 13, 14, 15, 20, 21, 30, 31, 40, 41];
+    if simple {
+        choices.extend([3, 4, 5, 16, 22, 23, 24, 32, 42, 43, 44]);
+        if ag.directed {
+            choices.extend([8, 25, 33, 33, 45]);
+        }
+    }
+    if corner == "capacity" {
+        choices = vec![1, 13];
+    } else if corner == "over-capacity" {
+        choices = vec![0];
+    }
+    let fe_big = corner == "capacity" || corner == "over-capacity";
+    let c = *rng.pick(&choices);
+    if c == 10 || (matches!(c, 6 | 7 | 14) && rng.chance(25)) {
+        specials(rng, ag);
+    }
+    if c == 15 {
+        for e in ag.edges.iter_mut() {
+            e.2 = 0;
+        }
+    }
+    let ag: &AG = ag;
+    let node_order = &node_order[..];
+    let edge_order = &edge_order[..];
+    let vg_i = VG::of(ag, false);
+    let vg_f = VG::of(ag, true);
+    match c {
         0 => {
-            let e = enc_graph::<Ty, u32>(ag, &node_order, &edge_order);
+            let e = enc_graph::<Ty, u32>(ag, node_order, edge_order);
             let g = &e.g;
-            let abs = |x: petgraph::graph::NodeIndex<u32>| g[x];
-            ctx.line(&format!("{} enc=graph-u32", view_line(ag, g, &abs, &|er, _| e.eid[EdgeRef::id(&er).index()])), "ok");
-            run_mst(ctx, rng, g, "i64", &abs, &|er| e.eid[EdgeRef::id(&er).index()], &|_, w| *w);
-            "graph-u32"
+            run_all(ctx, rng, &vg_i, g, "graph-u32", &|x| g[x], fe_big);
+            debug_law(ctx, rng, g);
         }
         1 => {
-            let e = enc_graph::<Ty, u8>(ag, &node_order, &edge_order);
+            let e = enc_graph::<Ty, u8>(ag, node_order, edge_order);
             let g = &e.g;
-            let abs = |x: petgraph::graph::NodeIndex<u8>| g[x];
-            ctx.line(&format!("{} enc=graph-u8", view_line(ag, g, &abs, &|er, _| e.eid[EdgeRef::id(&er).index()])), "ok");
-            run_mst(ctx, rng, g, "i64", &abs, &|er| e.eid[EdgeRef::id(&er).index()], &|_, w| *w);
-            "graph-u8"
+            run_all(ctx, rng, &vg_i, g, "graph-u8", &|x| g[x], fe_big);
         }
         2 => {
-            let e = enc_stable::<Ty, u32>(rng, ag, &node_order, &edge_order, true);
+            let e = enc_stable::<Ty, u32>(rng, ag, node_order, edge_order, true);
             let g = &e.g;
-            let abs = |x: petgraph::graph::NodeIndex<u32>| g[x];
-            ctx.line(&format!("{} enc=stable-holes", view_line(ag, g, &abs, &|er, _| e.eid[EdgeRef::id(&er).index()])), "ok");
-            run_mst(ctx, rng, g, "i64", &abs, &|er| e.eid[EdgeRef::id(&er).index()], &|_, w| *w);
-            "stable-holes"
+            run_all(ctx, rng, &vg_i, g, "stable-holes", &|x| g[x], false);
+            debug_law(ctx, rng, g);
         }
         3 => {
-            let g0 = enc_matrix::<Ty>(rng, ag, &node_order, &edge_order, true);
+            let g0 = enc_matrix::<Ty>(rng, ag, node_order, edge_order, true);
             let g = &g0;
-            let abs = |x: petgraph::matrix_graph::NodeIndex| *g.node_weight(x);
-            let look = |er: (petgraph::matrix_graph::NodeIndex, petgraph::matrix_graph::NodeIndex, &i64)| *pm.get(&(abs(er.0), abs(er.1))).unwrap_or(&usize::MAX);
-            ctx.line(&format!("{} enc=matrix-holes", view_line_out_only(ag, g, &abs, &|er, _| look(er))), "ok");
-            run_mst(ctx, rng, g, "i64", &abs, &look, &|_, w| *w);
-            "matrix-holes"
+            run_all(ctx, rng, &vg_i, g, "matrix-holes", &|x| *g.node_weight(x), false);
         }
         4 => {
-            let g0 = enc_map::<Ty>(ag, &node_order, &edge_order);
+            let g0 = enc_map::<Ty>(ag, node_order, edge_order);
             let g = &g0;
-            let abs = |x: usize| x;
-            let look = |er: (usize, usize, &i64)| *pm.get(&(er.0, er.1)).unwrap_or(&usize::MAX);
-            ctx.line(&format!("{} enc=graphmap", view_line(ag, g, &abs, &|er, _| look(er))), "ok");
-            run_mst(ctx, rng, g, "i64", &abs, &look, &|_, w| *w);
-            "graphmap"
+            run_all(ctx, rng, &vg_i, g, "graphmap", &|x| x, false);
+            debug_law(ctx, rng, g);
         }
         5 => {
-            let g0 = enc_csr::<Ty>(ag, &node_order, &edge_order);
+            let g0 = enc_csr::<Ty>(ag, node_order, edge_order);
             let g = &g0;
-            let abs = |x: u32| g[x];
-            let look = |er: petgraph::csr::EdgeReference<'_, i64, Ty>| *pm.get(&(abs(er.source()), abs(er.target()))).unwrap_or(&usize::MAX);
-            ctx.line(&format!("{} enc=csr", view_line_out_only(ag, g, &abs, &|er, _| look(er))), "ok");
-            run_mst(ctx, rng, g, "i64", &abs, &look, &|_, w| *w);
-            "csr"
+            run_all(ctx, rng, &vg_i, g, "csr", &|x| g[x], false);
+            debug_law(ctx, rng, g);
         }
-        6 => {
-            // integer-valued float weights on Graph
-            let e = enc_graph::<Ty, u32>(ag, &node_order, &edge_order);
-            let gf: Graph<usize, f64, Ty, u32> = e.g.map(|_, n| *n, |_, w| *w as f64);
+        6 | 10 => {
+            let e = enc_graph::<Ty, u32>(ag, node_order, edge_order);
+            let gf: Graph<usize, f64, Ty, u32> = graph_of(rng, &e);
             let g = &gf;
-            let abs = |x: petgraph::graph::NodeIndex<u32>| g[x];
-            ctx.line(&format!("{} enc=graph-f64", view_line(ag, &e.g, &abs, &|er, _| e.eid[EdgeRef::id(&er).index()])), "ok");
-            run_mst(ctx, rng, g, "f64", &abs, &|er| e.eid[EdgeRef::id(&er).index()], &|_, w| *w);
-            "graph-f64"
+            run_all(ctx, rng, &vg_f, g, "graph-f64", &|x| g[x], false);
+            debug_law(ctx, rng, g);
+        }
+        7 => {
+            // float weights on StableGraph with vacancies (map keeps the indices)
+            let e = enc_stable::<Ty, u32>(rng, ag, node_order, edge_order, true);
+            let gf: StableGraph<usize, f64, Ty, u32> = e.g.map(|_, n| *n, |_, w| f64::of_key(*w, false));
+            let g = &gf;
+            run_all(ctx, rng, &vg_f, g, "stable-f64", &|x| g[x], false);
         }
         8 => {
             // adj::List (directed, unit node weights): node i of the stream is abstract node node_order[i]
-            let g0 = enc_list(ag, &node_order, &edge_order);
+            let g0 = enc_list(ag, node_order, edge_order);
             let g = &g0;
-            let abs = |x: u32| node_order[x as usize];
-            let look = |er: petgraph::adj::EdgeReference<'_, i64, u32>| *pm.get(&(abs(er.source()), abs(er.target()))).unwrap_or(&usize::MAX);
-            ctx.line(&format!("{} enc=adj-list", view_line_out_only(ag, g, &abs, &|er, _| look(er))), "ok");
-            run_mst(ctx, rng, g, "i64", &abs, &look, &|i, _| node_order[i]);
-            "adj-list"
+            run_all(ctx, rng, &vg_i, g, "adj-list", &|x| node_order[x as usize], false);
+            debug_law(ctx, rng, g);
         }
         9 => {
             // Reversed(&Graph): the abstract graph is the reverse (direction is ignored by the property)
-            let e = enc_graph::<Ty, u32>(ag, &node_order, &edge_order);
-            let rag = AG { directed: ag.directed, n: ag.n, edges: ag.edges.iter().map(|&(a, b, w)| (b, a, w)).collect() };
-            let g = petgraph::visit::Reversed(&e.g);
-            let abs = |x: petgraph::graph::NodeIndex<u32>| e.g[x];
-            ctx.line(&format!("{} enc=reversed", view_line(&rag, g, &abs, &|er, _| e.eid[EdgeRef::id(&er).index()])), "ok");
-            run_mst(ctx, rng, g, "i64", &abs, &|er| e.eid[EdgeRef::id(&er).index()], &|_, w| *w);
-            "reversed"
+            let e = enc_graph::<Ty, u32>(ag, node_order, edge_order);
+            let g = &e.g;
+            directed_adaptors(ctx, rng, &vg_i, g, "graph", &|x| g[x]);
+        }
+        11 => {
+            let e = enc_graph::<Ty, u32>(ag, node_order, edge_order);
+            let g16: Graph<usize, i64, Ty, u16> = graph_of(rng, &e);
+            let g = &g16;
+            run_all(ctx, rng, &vg_i, g, "graph-u16", &|x| g[x], false);
+        }
+        12 => {
+            let e = enc_graph::<Ty, u32>(ag, node_order, edge_order);
+            let gz: Graph<usize, i64, Ty, usize> = graph_of(rng, &e);
+            let g = &gz;
+            run_all(ctx, rng, &vg_i, g, "graph-usize", &|x| g[x], false);
+        }
+        13 => {
+            let e = enc_stable::<Ty, u8>(rng, ag, node_order, edge_order, !fe_big);
+            let g = &e.g;
+            run_all(ctx, rng, &vg_i, g, "stable-u8", &|x| g[x], fe_big);
+        }
+        14 => {
+            let e = enc_graph::<Ty, u32>(ag, node_order, edge_order);
+            let gf: Graph<usize, f32, Ty, u32> = graph_of(rng, &e);
+            let g = &gf;
+            run_all(ctx, rng, &vg_f, g, "graph-f32", &|x| g[x], false);
+        }
+        15 => {
+            let e = enc_graph::<Ty, u32>(ag, node_order, edge_order);
+            let gu: Graph<usize, (), Ty, u32> = graph_of(rng, &e);
+            let g = &gu;
+            run_all(ctx, rng, &vg_i, g, "graph-unit", &|x| g[x], false);
+            debug_law(ctx, rng, g);
+        }
+        16 => {
+            // GraphMap with a non-default hasher
+            let mut g0 = GraphMap::<usize, i64, Ty, fxhash::FxBuildHasher>::with_capacity_and_hasher(0, 0, Default::default());
+            for &a in node_order {
+                g0.add_node(a);
+            }
+            for &k in edge_order {
+                let (a, b, w) = ag.edges[k];
+                g0.add_edge(a, b, w);
+            }
+            let g = &g0;
+            run_all(ctx, rng, &vg_i, g, "graphmap-fx", &|x| x, false);
+        }
+        20 => {
+            let e = enc_graph::<Ty, u32>(ag, node_order, edge_order);
+            let g = &e.g;
+            filtered(ctx, rng, &vg_i, n, g, "graph", &|x| g[x]);
+        }
+        21 => {
+            let e = enc_stable::<Ty, u32>(rng, ag, node_order, edge_order, true);
+            let g = &e.g;
+            filtered(ctx, rng, &vg_i, n, g, "stable", &|x| g[x]);
+        }
+        22 => {
+            let g0 = enc_map::<Ty>(ag, node_order, edge_order);
+            let g = &g0;
+            filtered(ctx, rng, &vg_i, n, g, "map", &|x| x);
+        }
+        23 => {
+            let g0 = enc_matrix::<Ty>(rng, ag, node_order, edge_order, true);
+            let g = &g0;
+            filtered_nd(ctx, rng, &vg_i, n, g, "matrix", &|x| *g.node_weight(x));
+        }
+        24 => {
+            let g0 = enc_csr::<Ty>(ag, node_order, edge_order);
+            let g = &g0;
+            filtered(ctx, rng, &vg_i, n, g, "csr", &|x| g[x]);
+        }
+        25 => {
+            let g0 = enc_list(ag, node_order, edge_order);
+            let g = &g0;
+            filtered(ctx, rng, &vg_i, n, g, "list", &|x| node_order[x as usize]);
+        }
+        30 => {
+            let e = enc_graph::<Ty, u32>(ag, node_order, edge_order);
+            let g = &e.g;
+            directed_adaptors(ctx, rng, &vg_i, g, "graph", &|x| g[x]);
+        }
+        31 => {
+            let e = enc_stable::<Ty, u32>(rng, ag, node_order, edge_order, true);
+            let g = &e.g;
+            directed_adaptors(ctx, rng, &vg_i, g, "stable", &|x| g[x]);
+        }
+        32 => {
+            let g0 = enc_map::<Ty>(ag, node_order, edge_order);
+            let g = &g0;
+            directed_adaptors(ctx, rng, &vg_i, g, "map", &|x| x);
+        }
+        33 => {
+            // MatrixGraph offers `edges_directed` on directed storage only
+            let g0 = enc_matrix::<Directed>(rng, ag, node_order, edge_order, true);
+            let g = &g0;
+            directed_adaptors_nd(ctx, rng, &vg_i, g, "matrix", &|x| *g.node_weight(x));
+        }
+        // `&Frozen<G>` is a graph for the algorithms exactly when `G` itself is one, i.e. a graph
+        // REFERENCE: Frozen::new(&mut &graph)
+        40 => {
+            let e = enc_graph::<Ty, u32>(ag, node_order, edge_order);
+            let mut g = &e.g;
+            let fz = Frozen::new(&mut g);
+            run_all(ctx, rng, &vg_i, &fz, "frozen-graph", &|x| e.g[x], false);
+        }
+        41 => {
+            let e = enc_stable::<Ty, u32>(rng, ag, node_order, edge_order, true);
+            let mut g = &e.g;
+            let fz = Frozen::new(&mut g);
+            run_all(ctx, rng, &vg_i, &fz, "frozen-stable", &|x| e.g[x], false);
+        }
+        42 => {
+            let g0 = enc_map::<Ty>(ag, node_order, edge_order);
+            let mut g = &g0;
+            let fz = Frozen::new(&mut g);
+            run_all(ctx, rng, &vg_i, &fz, "frozen-map", &|x| x, false);
+        }
+        43 => {
+            let g0 = enc_matrix::<Ty>(rng, ag, node_order, edge_order, true);
+            let mut g = &g0;
+            let fz = Frozen::new(&mut g);
+            run_all(ctx, rng, &vg_i, &fz, "frozen-matrix", &|x| *g0.node_weight(x), false);
+        }
+        44 => {
+            let g0 = enc_csr::<Ty>(ag, node_order, edge_order);
+            let mut g = &g0;
+            let fz = Frozen::new(&mut g);
+            run_all(ctx, rng, &vg_i, &fz, "frozen-csr", &|x| g0[x], false);
         }
         _ => {
-            // integer-valued float weights on StableGraph with vacancies (map keeps the indices)
-            let e = enc_stable::<Ty, u32>(rng, ag, &node_order, &edge_order, true);
-            let gf: StableGraph<usize, f64, Ty, u32> = e.g.map(|_, n| *n, |_, w| *w as f64);
-            let g = &gf;
-            let abs = |x: petgraph::graph::NodeIndex<u32>| g[x];
-            ctx.line(&format!("{} enc=stable-f64", view_line(ag, &e.g, &abs, &|er, _| e.eid[EdgeRef::id(&er).index()])), "ok");
-            run_mst(ctx, rng, g, "f64", &abs, &|er| e.eid[EdgeRef::id(&er).index()], &|_, w| *w);
-            "stable-f64"
+            let g0 = enc_list(ag, node_order, edge_order);
+            let mut g = &g0;
+            let fz = Frozen::new(&mut g);
+            run_all(ctx, rng, &vg_i, &fz, "frozen-list", &|x| node_order[x as usize], false);
         }
     }
 }
 
-/// weight modes: what the suite never generates — ties, all-equal, mixed sign, all distinct
+/// weight modes: what the suite never generates — ties, all-equal, mixed sign, all distinct, the ends
+/// of the integer range
 fn reweigh(rng: &mut Rng, ag: &mut AG) -> &'static str {
     let m = ag.edges.len();
-    match rng.below(6) {
-        0 => {
+    match rng.below(13) {
+        0 | 1 => {
             let (lo, hi) = if rng.chance(50) { (1, 3) } else { (-2, 2) };
             for e in ag.edges.iter_mut() { e.2 = rng.range(lo, hi); }
             "ties"
         }
-        1 | 2 => {
+        2 | 3 | 4 | 5 => {
             // all distinct (the minimum spanning forest is unique), mixed sign, random scale
             let scale = 1 + rng.below(4) as i64;
             let off = if rng.chance(60) { (m as i64) / 2 } else { 0 };
@@ -359,18 +1126,24 @@ fn reweigh(rng: &mut Rng, ag: &mut AG) -> &'static str {
             for (e, w) in ag.edges.iter_mut().zip(ws) { e.2 = w; }
             "distinct"
         }
-        3 => {
+        6 | 7 => {
             let c = *rng.pick(&[1i64, 0, -1, 7]);
             for e in ag.edges.iter_mut() { e.2 = c; }
             "equal"
         }
-        4 => {
+        8 | 9 => {
             for e in ag.edges.iter_mut() { e.2 = rng.range(-50, 50); }
             "wide"
         }
-        _ => {
+        10 | 11 => {
             for e in ag.edges.iter_mut() { e.2 = if rng.chance(50) { 1 } else { 100 }; }
             "two-level"
+        }
+        _ => {
+            // zero, the ends of what an integer-valued float holds exactly, small values
+            let pool = [0i64, 0, -1, 1, 9007199254740992, -9007199254740992, 16777216, -16777216];
+            for e in ag.edges.iter_mut() { e.2 = *rng.pick(&pool); }
+            "extreme"
         }
     }
 }
@@ -385,20 +1158,67 @@ pub fn run(ctx: &mut Ctx, case: u64) {
     let directed = rng.chance(35);
     let big = if ctx.tier_thorough { 10 } else { 8 };
     // small graphs (brute-force minimality applies) and larger ones (certificate only); trivial graphs
-    // (fewer than 3 nodes or 2 edges) are mostly redrawn
+    // (fewer than 3 nodes or 2 edges) are mostly redrawn.  Corners, 15 % of the cases together: the
+    // empty graph, a single node (with loops), a first node without edges, an index type filled to
+    // capacity (and the collecting type overflowed)
     let (mut ag, mut fam) = (AG { directed, n: 0, edges: vec![] }, 12);
-    for attempt in 0..4 {
-        let max_n = *rng.pick(&[4, 5, 5, 6, big, big]);
-        let opts = if rng.chance(60) { GenOpts::multi(max_n, 1, 3) } else { GenOpts { loops: rng.chance(40), ..GenOpts::simple(max_n) } };
-        let (a, f) = gen_graph(&mut rng, directed, opts);
-        ag = a;
-        fam = f;
-        if (ag.n >= 3 && ag.edges.len() >= 2) || (attempt == 0 && rng.chance(12)) {
-            break;
+    let corner = match rng.below(100) {
+        0..=2 => "empty",
+        3..=5 => "single",
+        6..=10 => "first-isolated",
+        11..=12 => "capacity",
+        13 => "over-capacity",
+        _ => "none",
+    };
+    match corner {
+        "empty" => {}
+        "single" => {
+            ag.n = 1;
+            for _ in 0..rng.below(3) {
+                ag.edges.push((0, 0, 1));
+            }
+        }
+        "capacity" | "over-capacity" => {
+            // 254 / 255 nodes (u8 holds at most 255), resp. 256 / 257 for the collecting u8 graph; few
+            // edges, so that the judge stays cheap: a handful of small clusters with ties
+            ag.n = if corner == "capacity" { *rng.pick(&[254, 255, 255]) } else { *rng.pick(&[256, 257]) };
+            let m = 6 + rng.below(14);
+            let hubs: Vec<usize> = (0..5).map(|_| rng.below(ag.n)).chain([0, ag.n - 1, ag.n - 2]).collect();
+            for _ in 0..m {
+                let (a, b) = (*rng.pick(&hubs), *rng.pick(&hubs));
+                if a != b || !directed {
+                    ag.edges.push((a, b, 1));
+                }
+            }
+            if corner == "capacity" {
+                // MatrixGraph etc. are not used here; parallel edges and loops are fine for Graph / StableGraph
+            }
+        }
+        _ => {
+            for attempt in 0..4 {
+                let max_n = *rng.pick(&[4, 5, 5, 6, big, big]);
+                let opts = if rng.chance(60) { GenOpts::multi(max_n, 1, 3) } else { GenOpts { loops: rng.chance(40), ..GenOpts::simple(max_n) } };
+                let (a, f) = gen_graph(&mut rng, directed, opts);
+                ag = a;
+                fam = f;
+                if (ag.n >= 3 && ag.edges.len() >= 2) || (attempt == 0 && rng.chance(12)) {
+                    break;
+                }
+            }
         }
     }
+    let mut node_order = random_perm(&mut rng, ag.n);
+    if corner == "first-isolated" {
+        // one more node, without edges (or with loops only), inserted first
+        let iso = ag.n;
+        ag.n += 1;
+        for _ in 0..(if rng.chance(25) { 1 + rng.below(2) } else { 0 }) {
+            ag.edges.push((iso, iso, 1));
+        }
+        node_order.insert(0, iso);
+    }
     let wm = reweigh(&mut rng, &mut ag);
-    let start = format!("case {} fam={} d={} n={} m={} w={}", case, family_name(fam), directed as u8, ag.n, ag.edges.len(), wm);
+    let start = format!("case {} fam={} d={} n={} m={} w={} corner={} profile={}", case, family_name(fam), directed as u8, ag.n, ag.edges.len(), wm, corner, profile());
     ctx.raw(&start);
-    if directed { case_ty::<Directed>(ctx, &mut rng, &ag) } else { case_ty::<Undirected>(ctx, &mut rng, &ag) };
+    if directed { case_ty::<Directed>(ctx, &mut rng, &mut ag, node_order, corner) } else { case_ty::<Undirected>(ctx, &mut rng, &mut ag, node_order, corner) };
 }
